@@ -176,7 +176,7 @@ func qrCase(t *vlib.T, m, n int, f famInfo, v int, rep string, cfg solveCfg) {
 	if f.full {
 		// documented: the condition number of R
 		if kr, ok := triCondRef(top); ok {
-			condBand(t, "QR.Cond", qr.Cond(), kr, 3, 1.01)
+			condBand(t, "QR.Cond", qr.Cond(), kr, lowCond(v), 1.01)
 		}
 		t.Outcome("full")
 	} else if f.exactSing {
@@ -289,7 +289,7 @@ func lqCase(t *vlib.T, m, n int, f famInfo, v int, rep string, cfg solveCfg) {
 	}
 	if f.full {
 		if kl, ok := triCondRef(left); ok {
-			condBand(t, "LQ.Cond", lq.Cond(), kl, 3, 1.01)
+			condBand(t, "LQ.Cond", lq.Cond(), kl, lowCond(v), 1.01)
 		}
 		t.Outcome("full")
 	} else if f.exactSing {
